@@ -3,6 +3,7 @@ from contracts._platform import RE_LIB, URL_ATTRS, BOUND
 
 MODULE = {
     "file": "ural/infer_redirection.py", "auto": True, "bound": BOUND,
+    "obj_attrs": dict(URL_ATTRS),
     "library": dict(RE_LIB, **{
         "Obj.split": {"params": ["string", "maxsplit"], "receiver": "pattern", "types": {"pattern": "Obj", "string": "Str", "maxsplit": "Int"}, "returns": "Seq[Str]",
                       "ensures": ["len(result) >= 1", "len(result) <= 2 * maxsplit + 1"]},
@@ -10,7 +11,7 @@ MODULE = {
     "functions": {
         "infer_redirection": {
             "types": {"url": "Str", "recursive": "Bool", "redirection_split": "Seq[Str]", "target": "Opt[Str]", "obvious_redirect_match": "Opt[Obj]",
-                      "potential_target": "Str"},
+                      "potential_target": "Str", "lent": "Bool"},
             "returns": "Str",
             # terminates: every recursive call is made on a strictly shorter string
             "decreases": "len(url)",
